@@ -1,0 +1,43 @@
+//go:build verif
+
+package index
+
+import (
+	"github.com/sourcegraph/zoekt"
+)
+
+// Verification hooks for property C01 (search exactness). Not part of the normal build.
+
+var verifContentPB, verifNamePB *postingsBuilder
+
+// VerifNewShardBuilder is NewShardBuilder, except that the two postingsBuilders are taken from a one-element pool and
+// reset() between shards, the way index.Builder's shard-builder pool reuses them (allocating the 2 x 16 MB ASCII
+// tables afresh for each of thousands of tiny test shards dominates the run otherwise). Consequently only one
+// builder obtained here may be live at a time: Write it before asking for the next.
+// With compound set, the builder writes the compound-shard format version and further repositories can be started
+// with VerifStartRepository, exactly as merge() does through setRepository.
+func VerifNewShardBuilder(r *zoekt.Repository, compound bool) (*ShardBuilder, error) {
+	if verifContentPB == nil {
+		verifContentPB = newPostingsBuilder(1 << 16)
+		verifNamePB = newPostingsBuilder(1 << 16)
+	} else {
+		verifContentPB.reset()
+		verifNamePB.reset()
+	}
+	b := newShardBuilderWithPostings(verifContentPB, verifNamePB)
+	if compound {
+		b.indexFormatVersion = NextIndexFormatVersion
+	}
+	if r == nil {
+		r = &zoekt.Repository{}
+	}
+	if err := b.setRepository(r); err != nil {
+		return nil, err
+	}
+	return b, nil
+}
+
+// VerifStartRepository starts the next repository of a compound shard under construction (ShardBuilder.setRepository).
+func VerifStartRepository(b *ShardBuilder, r *zoekt.Repository) error {
+	return b.setRepository(r)
+}
